@@ -414,7 +414,7 @@ def run(ctx):
                 if l and not l.startswith('#'):
                     cases.append(fix_case(json.loads(l)))
         rng = ctx.rng
-        n = 1500 if ctx.quick else 40000
+        n = 1500 if ctx.quick else 14000
         dist = {}
         for _ in range(n):
             g, label = gen_case_geom(rng)
@@ -521,6 +521,14 @@ def find_known(ctx, fid):
         if k.get('id') == fid and k.get('status') == 'known':
             return k
     return None
+
+
+def polygonal_elements(g):
+    """the Polygon / MultiPolygon elements of a geometry, at any depth of collections"""
+    t, d = g
+    if t in ('PG', 'MPG'): return [g]
+    if t == 'GC': return [e for x in d for e in polygonal_elements(x)]
+    return []
 
 
 def rings_of(g):
@@ -631,7 +639,15 @@ def judge_all(ctx, drv, cases, shrink=False):
         tb = table_request(c)
         if tb is not None:
             tl.append(tb[0]); ti.append((i, tb[1]))
-    mouts = par_run_lines(ctx, [drv], ml + tl, 600 if ctx.quick else 1500)
+    mouts = par_run_lines(ctx, [drv], ml + tl, 300 if ctx.quick else 600, chunk=200)
+    allq = ml + tl
+    unfinished = [j for j, o_ in enumerate(mouts) if o_.startswith(('CRASH', 'TIMEOUT')) or o_ in ('MISSING', '')]
+    for j in unfinished[:200]:            # once more, alone (a loaded machine can starve a whole batch)
+        mouts[j] = ctx.run_lines([drv], [allq[j]], timeout=300)[0]
+    unfinished = [j for j, o_ in enumerate(mouts) if o_.startswith(('CRASH', 'TIMEOUT')) or o_ in ('MISSING', '')]
+    ctx.notes['checker_requests_unfinished'] = len(unfinished)
+    if len(unfinished) > max(3, len(allq) // 200):
+        ctx.broken.append(dict(kind='checker', name='drv_C17 unfinished', detail='%d of %d checker requests did not finish, e.g. %s' % (len(unfinished), len(allq), allq[unfinished[0]][:800])))
     ctx.log('checker / model: %d requests' % (len(ml) + len(tl)))
     mres = {i: (l, o) for i, l, o in zip(mi, ml, mouts[:len(ml)])}
     tres = {i: (l, o, why) for (i, why), l, o in zip(ti, tl, mouts[len(ml):])}
@@ -698,12 +714,12 @@ def judge_case(ctx, c, line, o, pr, mres, tres, st):
         return []
     if o.startswith('CRASH') or o in ('TIMEOUT', 'MISSING', ''):
         ctx.count(line, True)
-        return [('no-crash', 'implementation %s' % (o[:200] or 'died'), None)]
+        return [('no-crash', 'implementation %s' % (o[:200] or 'died'), f9 if o == 'TIMEOUT' else None)]
     if pr is None:
         ctx.count(line, True)
         kf = f9
-        rs = rings_of(g)
-        if kf is None and lw and fin and 'mixed-dimension' in o and len(rs) >= 2 and rs[0] and len(set(rs[0])) == 1 and g[0] in ('PG', 'MPG'):
+        if kf is None and lw and fin and 'mixed-dimension' in o and any(
+                len(rings_of(e)) >= 2 and rings_of(e)[0] and len(set(rings_of(e)[0])) == 1 for e in polygonal_elements(g)):
             kf = find_known(ctx, 'C17-F3')
         if kf is None and lw and fin and 'UnsupportedOperationException' in o and has_kind(g, 'LR'):
             kf = find_known(ctx, 'C17-F4')
@@ -742,7 +758,10 @@ def judge_case(ctx, c, line, o, pr, mres, tres, st):
         bad.append(('idempotent', 'fix(fix(g)) differs from fix(g) (IDEM=%s, valid=%s): %s' % (fl.get('IDEM'), fl.get('IDEMV'), wkt(r2)[:150] if r2 else 'NULL'), f9 or (f2 if fl.get('V') != 1 else None)))
     if mres is not None:
         ml, mo = mres
-        if mo.startswith(('CRASH', 'TIMEOUT', 'PARSE', 'ERROR', '?')):
+        if mo.startswith(('CRASH', 'TIMEOUT')) or mo in ('MISSING', ''):
+            st('checker-unfinished')         # not judged; the share of such requests is limited in judge_all
+            return bad
+        if mo.startswith(('PARSE', 'ERROR', '?')):
             ctx.broken.append(dict(kind='checker', name='drv_C17', detail='%s\n%s' % (ml[:1500], mo[:300])))
             return bad
         bits = mo.split()
@@ -769,6 +788,8 @@ def judge_case(ctx, c, line, o, pr, mres, tres, st):
                 st('collapse-kept' if c['keep'] else 'collapse-dropped')
     if tres is not None:
         tl, to, why = tres
+        if not to.strip().isdigit():
+            return bad
         st('table')
         want = to.strip(); got = kind_code(r)
         okk = str(got) == want or (want == '4' and got == 4)
